@@ -40,7 +40,7 @@ ReadsExactlyTheRange ==
 \* as-is world: the model deviates from the property only inside the known-finding classes
 Ranged(r) == r.mode # "none"
 KF_ECFirstPart(r) == c.layout = "ec" /\ Ranged(r) /\ 1 \in c.miss
-KF_ECNoDataHeader(r) == c.layout = "ec" /\ ~Ranged(r) /\ (1..c.k) \subseteq c.miss /\ c.L > 0
+KF_ECNoDataHeader(r) == c.layout = "ec" /\ ~Ranged(r) /\ (1..c.k) \subseteq c.miss
 KF_V2NoLinkEmpty(r) == c.layout = "v2nolink" /\ Ranged(r) /\ RefRead(r, c.L).st = "ok"
 KF_V1NoLinkExtra(r) == /\ c.layout = "v1nolink" /\ Ranged(r)
                        /\ LET ref == RefRead(r, c.L) IN
